@@ -616,6 +616,10 @@ def _wrap_opaque(cls, name):
         try:
             it = vals.get("item")
             _identity_guard(self, [], extra=[it])
+            if isinstance(it, Q.Table) and it.alias is None and any(isinstance(x, Q.Table) and x == it for x in list(self._from) + [self._update_table]):
+                # do_join renames the joined Table OBJECT (`<name>2`): every field bound to that object follows, which a
+                # syntax tree without object identity cannot express (the write onto the argument is a listed C01 finding)
+                raise Unsupported("same table joined again (object identity)")
             item = describe.d_src(it)
             pre = d_state(self)
         except Unsupported as e:
